@@ -449,6 +449,13 @@ func (p *c19) Run(raw json.RawMessage) eng.Result {
 			for _, s := range XMLText {
 				vals = append(vals, val.String(s))
 			}
+			// every single XML 1.0 character up to U+00FF and the encoding boundaries, one per document
+			for _, s := range model.CharAlphabet() {
+				r := []rune(s)[1]
+				if r == 0x9 || r == 0xA || r == 0xD || (r >= 0x20 && r <= 0xD7FF) || (r >= 0xE000 && r <= 0xFFFD) || r >= 0x10000 {
+					vals = append(vals, val.String(s))
+				}
+			}
 			if lf.Type().Format().IsList() {
 				vals = []val.Value{val.StringList{"a"}, val.StringList{"a", "b", "c"}, val.StringList{" b", "a"}, val.StringList{"<&>", "", "a b"}, val.StringList(XMLText)}
 			}
